@@ -89,6 +89,7 @@ type State struct {
 	w        *Worker
 	pend     *Term
 	pendName string
+	spec     bool
 }
 
 type choiceList struct {
@@ -150,6 +151,9 @@ func (st *State) clone() *State {
 }
 
 func (st *State) fail(msg string) {
+	if st.spec {
+		panic(specAbort{})
+	}
 	if st.status == Running {
 		st.status = Failed
 		st.errMsg = msg + st.where()
@@ -172,6 +176,9 @@ func (st *State) where() string {
 // memViolation reports an access the real program would perform through
 // unsafe without a Go-level panic (out of block, torn pointer ...).
 func (st *State) memViolation(msg string) {
+	if st.spec {
+		panic(specAbort{})
+	}
 	if st.status != Running {
 		return
 	}
